@@ -300,7 +300,7 @@ def run_entry_points(chk, gen):
 RAW_AUDIT = "Audit/C01Raw.lean"
 RAW_TABLE = "TinsModel/Wire/RawCoverage.lean"
 NO_CORR = os.environ.get("VERIF_C01_NO_CORR") == "1"     # test switch: prove only, run no correspondence / sweep / search
-READERS = r'(?:(?<![A-Za-z_.])(?:rd|rdN|Cursor\.rest|Cursor\.peek|[A-Za-z_0-9.]+\.peek|peek|extOf)|\.fault)\s+"([^"]+)"'
+READERS = r'(?:(?<![A-Za-z_.])(?:rd|rdN|rdInc|rdRange|Cursor\.rest|Cursor\.peek|[A-Za-z_0-9.]+\.peek|peek|extOf)|\.fault)\s+"([^"]+)"'
 
 
 def model_site_strings():
